@@ -1,4 +1,5 @@
 import Momtrop.Props.C01
+import Momtrop.Props.C04R
 /-!
 # C01 — the law of the Feynman parameters inside one sector (Borinsky's sector density, as a theorem)
 
@@ -253,6 +254,98 @@ theorem sector_density_times_prob (halfD dod J : ℝ) (ωs : List ℝ) (ss : Lis
   calc (ωs.map fun ω => 1 / ω).prod / J * (omegaProd ωs * (weightProd ss ys / ((uTrop ss ys) ^ halfD * (vTrop ss ys) ^ dod)))
       = ((ωs.map fun ω => 1 / ω).prod * omegaProd ωs) * (weightProd ss ys / ((uTrop ss ys) ^ halfD * (vTrop ss ys) ^ dod)) / J := by ring
     _ = _ := by rw [hprod, one_mul]
+
+/-- congruence of the iterated integral on the region it integrates over: positive entries, one per step -/
+theorem nested_congr_pos : ∀ (ωs : List ℝ) (c : ℝ) (g g' : List ℝ → ℝ≥0∞),
+    (∀ ys : List ℝ, ys.length = ωs.length → (∀ y ∈ ys, 0 < y) → g ys = g' ys) → nested ωs c g = nested ωs c g' := by
+  intro ωs
+  induction ωs with
+  | nil => intro c g g' h; simpa [nested] using h [] rfl (by simp)
+  | cons ω ωs ih =>
+    intro c g g' h
+    simp only [nested]
+    apply setLIntegral_congr_fun measurableSet_Ioo
+    intro y hy
+    apply ih
+    intro ys hlen hpos
+    apply h (y :: ys) (by simp [hlen])
+    intro z hz
+    rcases List.mem_cons.mp hz with rfl | hz
+    · exact hy.1
+    · exact hpos z hz
+
+/-- **Contribution of one sector to the expectation of any function of the Feynman parameters.** Probability of the sector
+(`(Π 1/ω_k)/J`, `C04.orderProb_eq`) times the integral over the uniform numbers drawn inside it (`chainInt`) equals the integral of the
+function over the sector's region `1 > y_1 > … > y_n > 0` against the density `x^{ν−1} / (U_tr^{D/2} V_tr^{dod}) / J` — the SAME expression
+in every sector (`J = I_tr` up to the normalisation constants): summing over the `E!` sectors gives the tropical-sampling theorem. -/
+theorem sector_expectation (halfD dod J : ℝ) (hJ : 0 < J) (ωs : List ℝ) (ss : List StepData)
+    (hω : ∀ ω ∈ ωs, 0 < ω) (hc : Consistent halfD dod ωs ss) (f : List ℝ → ℝ≥0∞) :
+    ENNReal.ofReal ((ωs.map fun ω => 1 / ω).prod / J) * chainInt ωs 1 f
+      = nested ωs 1 fun ys =>
+          ENNReal.ofReal (weightProd ss ys / ((uTrop ss ys) ^ halfD * (vTrop ss ys) ^ dod) / J) * f ys := by
+  rw [chain_law ωs hω 1 one_pos f, ← nested_const_mul _ ENNReal.ofReal_ne_top]
+  apply nested_congr_pos
+  intro ys hlen hpos
+  have hP : 0 ≤ (ωs.map fun ω => 1 / ω).prod / J := by
+    apply div_nonneg _ hJ.le
+    apply List.prod_nonneg
+    intro a ha
+    obtain ⟨ω, hω', rfl⟩ := List.mem_map.mp ha
+    exact (one_div_pos.mpr (hω ω hω')).le
+  rw [← mul_assoc, ← ENNReal.ofReal_mul hP, sector_density_times_prob halfD dod J ωs ss ys hω hc hlen.symm hpos]
+
+/-! ### all sectors together -/
+
+/-- the generalised degrees of divergence met along a removal order: `ω(g∖s_1), ω(g∖{s_1,s_2}), …` (the last one is `ω(∅)`) -/
+noncomputable def omegasAlong (omega : Mask → ℝ) : Mask → List Nat → List ℝ
+  | _, [] => []
+  | g, e :: σ => omega (Mask.pop g e) :: omegasAlong omega (Mask.pop g e) σ
+
+theorem orderWeight_eq_prod (omega : Mask → ℝ) : ∀ (σ : List Nat) (g : Mask),
+    C04.orderWeight omega g σ = ((omegasAlong omega g σ).map fun ω => 1 / ω).prod := by
+  intro σ
+  induction σ with
+  | nil => intro g; simp [C04.orderWeight, omegasAlong]
+  | cons e σ ih => intro g; simp only [C04.orderWeight, omegasAlong, List.map_cons, List.prod_cons, ih]
+
+/-- the `ω`'s that enter the sampler's powers: all but the last (`ω(∅) = 1` is never used as an exponent) -/
+noncomputable def sectorOmegas (omega : Mask → ℝ) (g : Mask) (σ : List Nat) : List ℝ := (omegasAlong omega g σ).dropLast
+
+theorem prod_dropLast_of_last_one (l : List ℝ) (h : l ≠ []) (hlast : l.getLast h = 1) :
+    (l.map fun ω => 1 / ω).prod = (l.dropLast.map fun ω => 1 / ω).prod := by
+  conv_lhs => rw [← List.dropLast_append_getLast h]
+  simp [hlast]
+
+/-- **Tropical sampling, all sectors.** For an accepted table (`J ≠ 0` everywhere, `ω(∅) = 1`, the `ω`'s along every complete removal
+order positive and consistent with the step data of that order), and for ANY family of test functions `f σ` of the Feynman parameters
+of sector `σ`: the expectation over the sampler's choices — the sum over all `E!` complete orders of (probability of the order,
+`C04.orderProb`) × (integral over the uniform numbers drawn inside it) — equals the sum over the sectors of the integral of `f σ` over
+the sector's region against ONE density, `x^{ν−1} / (U_tr^{D/2} V_tr^{dod}) / J(G)`. -/
+theorem tropical_sampling (omega : Mask → ℝ) (n : Nat) (hJ : ∀ h, h < 2 ^ n → Jval omega n h ≠ 0)
+    (g : Mask) (hg : g < 2 ^ n) (hJg : 0 < Jval omega n g) (halfD dod : ℝ)
+    (ss : List Nat → List StepData) (f : List Nat → List ℝ → ℝ≥0∞)
+    (hlast : ∀ σ ∈ C04.orderingsAux (card n g) (Mask.edges n g), ∀ h : omegasAlong omega g σ ≠ [],
+      (omegasAlong omega g σ).getLast h = 1)
+    (hpos : ∀ σ ∈ C04.orderingsAux (card n g) (Mask.edges n g), ∀ ω ∈ sectorOmegas omega g σ, 0 < ω)
+    (hcons : ∀ σ ∈ C04.orderingsAux (card n g) (Mask.edges n g), Consistent halfD dod (sectorOmegas omega g σ) (ss σ)) :
+    ((C04.orderingsAux (card n g) (Mask.edges n g)).map fun σ =>
+        ENNReal.ofReal (C04.orderProb omega n g σ) * chainInt (sectorOmegas omega g σ) 1 (f σ)).sum
+      = ((C04.orderingsAux (card n g) (Mask.edges n g)).map fun σ =>
+          nested (sectorOmegas omega g σ) 1 fun ys =>
+            ENNReal.ofReal (weightProd (ss σ) ys / ((uTrop (ss σ) ys) ^ halfD * (vTrop (ss σ) ys) ^ dod) / Jval omega n g) * f σ ys).sum := by
+  congr 1
+  apply List.map_congr_left
+  intro σ hσ
+  have hlt : ∀ e ∈ σ, e < n := fun e he =>
+    (Mask.mem_edges.mp ((C04.orderingsAux_perm (card n g) (Mask.edges n g) σ rfl hσ).mem_iff.mp he)).1
+  have hP : C04.orderProb omega n g σ = ((sectorOmegas omega g σ).map fun ω => 1 / ω).prod / Jval omega n g := by
+    rw [C04.orderProb_eq omega n hJ σ g hg hlt, C04.complete_order_exhausts n g hg σ hσ, C04.J_empty, Scalar.one_real, mul_one,
+      orderWeight_eq_prod]
+    by_cases hne : omegasAlong omega g σ = []
+    · simp [sectorOmegas, hne]
+    · rw [prod_dropLast_of_last_one _ hne (hlast σ hσ hne)]; rfl
+  rw [hP]
+  exact sector_expectation halfD dod (Jval omega n g) hJg (sectorOmegas omega g σ) (ss σ) (hpos σ hσ) (hcons σ hσ) (f σ)
 
 /-- non-vacuity: the massless bubble in `D = 3` with weights `ν = (1, 3/4)` (`dod = 1/4`), order `(s_1, s_2)`: one step,
 `ω_1 = ω({s_2}) = ν_2 − dod = 1/2` (the single edge still connects the two external vertices: momentum spanning, no loop);
